@@ -127,7 +127,7 @@ def run(ctx):
                 "seeded structured inputs (runs, periods around 18/256/4096, self-similar with window-edge copies, "
                 "incompressible, text) compressed by the real LZ10 compressor; the stream is decoded by the TLA+ decoder "
                 "machine at the real constants. Non-trivial = event whose stream made the decoder take >= 1 BackRef step "
-                "(counted by TLC)." % (ctx.pick(7, 10), ctx.pick(11, 14), ctx.pick(7, 9)))
+                "(counted by TLC)." % (ctx.pick(7, 9), ctx.pick(11, 14), ctx.pick(7, 9)))
     profiles = ctx.pick(["release"], ["release", "checked"])
     bins = [ctx.build(p, BIN) for p in profiles]   # cargo first, TLC afterwards
     model_laws(ctx)
